@@ -69,8 +69,12 @@ class ProdBase:
             try:
                 self.proto.transport.write(b"P" * self.ctx.recsize)
             except Exception as e:
-                self.ctx.V("C15.write_raised", "a producer may write when "
-                           "resumed", "%r" % (e,))
+                # judged at the end of the event: a write that lands inside
+                # the library's own processing of the peer's CLOSE (the
+                # subchannel is closed, connectionLost is the next thing the
+                # application hears) legitimately fails
+                self.ctx.write_errors.append((self.proto, repr(e)))
+                return
 
 
 @implementer(IPushProducer)
@@ -140,8 +144,11 @@ class Ctx:
 
 
 def configs(tier):
+    # the fifth: a transport that may hand its data on synchronously, so
+    # that the drain signal (resumeProducing) arrives inside the write() that
+    # caused the pause, i.e. inside a producer's turn
     return [{"mode": "mixed"}, {"mode": "mixed"}, {"mode": "rotation"},
-            {"mode": "inbound"}]
+            {"mode": "inbound"}, {"mode": "mixed", "sync_drain": True}]
 
 
 def run_one(seed, tape, opts):
@@ -155,10 +162,20 @@ def run_one(seed, tape, opts):
     if mode != "rotation":
         sim.net.high_water = tape.pick((1, 50, 1000, 65536, 1 << 20), "hw2")
     sim.net.window = tape.pick((200, 5000, 1 << 30), "win2")
+    if opts.get("sync_drain"):
+        sd_budget = [3 + tape.choose(12, "sd_budget")]
+
+        def sync_drain(end):
+            if sd_budget[0] <= 0 or tape.choose(2, "sd") == 0:
+                return False
+            sd_budget[0] -= 1
+            return True
+        sim.net.sync_drain = sync_drain
     ctx = Ctx()
     ctx.sim, ctx.tape, ctx.w = sim, tape, w
     ctx.recsize = tape.pick((1, 40, 2000), "recsize")
     ctx.turn_log = {}
+    ctx.write_errors = []
     viol = []
 
     def V(key, clause, detail):
@@ -365,6 +382,12 @@ def run_one(seed, tape, opts):
     def oracle():
         if viol:
             return
+        while ctx.write_errors:
+            proto_, err_ = ctx.write_errors.pop()
+            if not (proto_.lost or proto_.closed_local):
+                V("C15.write_raised", "a producer may write when resumed",
+                  err_)
+                return
         for s in w.sides:
             wr = writable(s)
             if wr is None:
